@@ -155,6 +155,10 @@ fn scenarios() -> Vec<Scn> {
     add("sparql:bgp-solutions", true, u64::MAX);
     add("sparql:bgp-join", true, u64::MAX);
     add("sparql:bgp-rejected-rows", true, u64::MAX);
+    // characters of one literal handled by a SPARQL string function (every second one needs escaping)
+    for (f, quick) in [("encode_for_uri", true), ("ucase-lcase", false), ("concat-strlen", false), ("substr-contains", false), ("strbefore-strafter", false), ("str-order", true)] {
+        add(&format!("sparql:fn-{f}"), quick, u64::MAX);
+    }
     // items of one RDF list
     add("list:jsonld-serialize", true, u64::MAX);
     add("list:jsonld-parse", true, u64::MAX);
@@ -528,6 +532,33 @@ fn scenario(name: &str, n: u64) -> Result<String, String> {
                     .collect();
                 let d: LightDataset = quad_source(&qs).collect_quads().map_err(|e| e.to_string())?;
                 sparql_count(&d, "SELECT * { ?x <http://x/p> ?x }")
+            }
+            f if f.starts_with("fn-") => {
+                // one literal of N characters, every second one outside the unreserved set / non-ASCII
+                let mut lex = String::with_capacity(n as usize * 2);
+                for i in 0..n {
+                    lex.push(match i % 4 {
+                        0 => 'a',
+                        1 => ' ',
+                        2 => 'Z',
+                        _ => '\u{e9}',
+                    });
+                }
+                let qs = vec![
+                    MQ::new(iri("http://x/s".into()), iri("http://x/p".into()), MT::string(lex.clone()), None),
+                    MQ::new(iri("http://x/t".into()), iri("http://x/p".into()), MT::string(format!("{lex}!")), None),
+                ];
+                let d: LightDataset = quad_source(&qs).collect_quads().map_err(|e| e.to_string())?;
+                let query = match &f[3..] {
+                    "encode_for_uri" => "SELECT (ENCODE_FOR_URI(?o) AS ?r) { ?s <http://x/p> ?o }",
+                    "ucase-lcase" => "SELECT (UCASE(?o) AS ?r) (LCASE(?o) AS ?l) { ?s <http://x/p> ?o }",
+                    "concat-strlen" => "SELECT (STRLEN(CONCAT(?o, ?o)) AS ?r) { ?s <http://x/p> ?o }",
+                    "substr-contains" => "SELECT (SUBSTR(?o, 2) AS ?r) { ?s <http://x/p> ?o FILTER(CONTAINS(?o, \" Z\") && STRSTARTS(?o, \"a\") && !STRENDS(?o, \"?\")) }",
+                    "strbefore-strafter" => "SELECT (STRBEFORE(?o, \"!\") AS ?b) (STRAFTER(?o, \"a \") AS ?a) { ?s <http://x/p> ?o }",
+                    "str-order" => "SELECT (STR(?o) AS ?r) { ?s <http://x/p> ?o FILTER(?o >= \"a\") } ORDER BY DESC(?o)",
+                    other => return Err(format!("unknown function scenario {other}")),
+                };
+                sparql_count(&d, query)
             }
             _ => Err(format!("unknown scenario {name}")),
         },
